@@ -37,6 +37,16 @@ CHECKS = {
   category='other', ref='DESIGN.md section 4 (C09)',
   text="Proved: every item rebuilt from an instruction id has the instruction's name, numeric pushes carry the canonical lower-case hex of the word (all 2^256 values), pseudo pushes carry the specification's operand, unbound ids become basic stack operations and NOP is dropped; the optimized contract is a deep copy with only the code lists replaced. Bounded: on 7 synthetic documents x 3-7 option sets the skeleton (tags, JUMPDEST, jumps, terminals, split instructions with all fields), version, auxdata, data sections and source lists are unchanged, emitted items are well formed, pseudo-push operands occur in the input segment, and the output re-reads to itself.",
   note=TRUST + "Whole-document preservation is a bounded stand-in (synthetic documents, greedy back end)."),
+ 'C12': dict(
+  technique="frame obligations discharged by a flow-sensitive effect analysis of the real ASTs (may-read-before-write / must-write sets with call summaries, fixpoint over 400+ functions): every module global that an entry point may read before writing it and that is written between blocks belongs to a reviewed class whose side condition is re-checked mechanically; plus bounded native history replays against pristine processes",
+  category='other', ref='DESIGN.md section 4 (C12)',
+  text="For the per-block entry points (evm2rbr_compiler, get_subblocks, optimize_asm_block_asm_format, compare_asm_block_asm_format, optimize_asm_block_from_log, greedy_from_json, generate_statistics_info): the result depends only on the arguments, on constants and on option mirrors; statistics accumulators are only self-updated; no mutable default argument is mutated. A new global that is read before being re-initialised, or a reviewed one whose side condition breaks, fails the obligation. Bounded: blocks processed after histories of other blocks give the same specification and code as in a pristine process.",
+  note="Trusted: the effect analysis (frames/effects.py) -- sufficient, over-approximating; limits: dynamic attribute access, exec/eval, aliasing of a global container through a local name. Assumption: one option set per process. The reviewed table is in contracts/c12.py."),
+ 'C13': dict(
+  technique="purity obligations discharged by a scan of the real ASTs of everything reachable from the per-block entry points (run-dependent sources: clock, hash(), id(), uuid, pid, directory listings, resource usage; order-sensitive consumption of set-typed values), each site reviewed with a reason; plus bounded replays under different PYTHONHASHSEED values in separate processes",
+  category='other', ref='DESIGN.md section 4 (C13)',
+  text="Every call of a run-dependent source and every ordered consumption of a set inside the pipeline is a reviewed site that cannot reach a specification, a greedy sequence or an emitted file; identifier numbering iterates a sorted key list. A new unreviewed site fails. Bounded: ~80 blocks x 2 option sets produce identical specifications (identifiers included) and identical emitted code under 4 (thorough: 11) hash seeds in separate processes and scratch directories.",
+  note="Trusted: the purity scan (frames/purity.py), syntactic set-typedness inference; sites whose order-independence is argued in the reviewed table are backed by the hash-seed replay only (bounded)."),
  'C14': dict(
   technique="bounded stand-ins on the real functions (no deductive proof yet): exhaustive shape enumeration for rebuild_optimized_asm_block and process_blocks_split against the join/replace specification, generated blocks for the splitting policies and the stack hand-over between sub-block specifications",
   category='other', ref='DESIGN.md section 4 (C14)',
